@@ -560,7 +560,7 @@ def blank_delimited_case(ctx, rng):
         ctx.violation("value-differs-from-data", {"got": repr(got)[:300], "expected": repr(want)[:300]}, case)
 
 
-TOK_KW = r"""(?P<SPACE>\s+)|(?P<COMMENT>\#.*)|(?P<WORD>[a-z]+)|"(?P<QSTR>[a-z ]*)"|(?P<BO>\[)|(?P<BC>\])|(?P<CO>\{)|(?P<CC>\})
+TOK_KW = r"""(?P<SPACE>\s+)|(?P<COMMENT>\#.*)|(?P<WORD>[a-z]+)|"(?P<QSTR>[a-z ]*)"|(?P<ML>''')|(?P<BO>\[)|(?P<BC>\])|(?P<CO>\{)|(?P<CC>\})
             |(?P<COMMA>,)|(?P<COLON>:)"""
 _KW_PARSER = []
 
@@ -570,7 +570,9 @@ def keyword_case(ctx, rng):
     spelled like a keyword: items and keys of that kind are items and keys like any other"""
     if not _KW_PARSER:
         _KW_PARSER.append(llparser.LLParser(
-            TOK_KW, synonyms={'BO': '[', 'BC': ']', 'CO': '{', 'CC': '}', 'COMMA': ',', 'COLON': ':'},
+            # (a text in triple quotes may run over several lines; it is a string like the ones in double quotes)
+            TOK_KW, synonyms={'BO': '[', 'BC': ']', 'CO': '{', 'CC': '}', 'COMMA': ',', 'COLON': ':', 'ML': 'QSTR'},
+            span_matchers={'ML': r"(?P<END_ML>(.|\n)*?)'''"},
             keywords={('WORD', 'in'): 'IN', ('WORD', 'null'): 'NULL'},
             productions={'E': [('WORD', 'IN', 'LIST'), ('MAP',)],
                          'LIST': ListProds('[', 'ITEM', ',', ']'),
@@ -583,20 +585,23 @@ def keyword_case(ctx, rng):
         if d < 3 and r < 0.2:
             return [gen(d + 1) for _ in range(rng.choice([0, 1, 2, 3]))]
         if d < 3 and r < 0.35:
-            return {rng.choice(["in", "null", "k", "x y", ""]): gen(d + 1) for _ in range(rng.choice([0, 1, 2, 3]))}
-        return rng.choice(["a", "bc", "null", '"in"', '"null"', '"x y"', '""', '"a"'])
+            return {rng.choice(["in", "null", "k", "x y", "", "two\nlines", "a\n\nb"]): gen(d + 1)
+                    for _ in range(rng.choice([0, 1, 2, 3]))}
+        return rng.choice(["a", "bc", "null", '"in"', '"null"', '"x y"', '""', '"a"', "'''x\ny'''", "''''''",
+                           "''' in\n  null '''"])
 
     def text_of(v):
         if isinstance(v, str):
             return v
         if isinstance(v, list):
             return "[" + ws(rng) + (ws(rng) + "," + ws(rng)).join(text_of(x) for x in v) + ws(rng) + "]"
-        return "{" + ws(rng) + (ws(rng) + "," + ws(rng)).join('"%s"' % k + ws(rng) + ":" + ws(rng) + text_of(x)
-                                                               for k, x in v.items()) + "}"
+        return "{" + ws(rng) + (ws(rng) + "," + ws(rng)).join(
+            (("'''%s'''" if "\n" in k or rng.random() < 0.2 else '"%s"') % k) + ws(rng) + ":" + ws(rng) + text_of(x)
+            for k, x in v.items()) + "}"
 
     def want_of(v):
         if isinstance(v, str):
-            return v[1:-1] if v.startswith('"') else v
+            return v[3:-3] if v.startswith("'''") else v[1:-1] if v.startswith('"') else v
         if isinstance(v, list):
             return [want_of(x) for x in v]
         return ('DICT', [(k, want_of(x)) for k, x in v.items()])
@@ -604,7 +609,7 @@ def keyword_case(ctx, rng):
         data = [gen(1) for _ in range(rng.choice([0, 1, 2, 4]))]
         text = "x in " + text_of(data)
     else:
-        data = {rng.choice(["in", "null", "k", ""]): gen(1) for _ in range(rng.choice([0, 1, 2, 3]))}
+        data = {rng.choice(["in", "null", "k", "", "two\nlines"]): gen(1) for _ in range(rng.choice([0, 1, 2, 3]))}
         text = text_of(data)
     case = {"options": {"keywords_and_quoted_strings": True}, "text": text}
     try:
@@ -617,6 +622,41 @@ def keyword_case(ctx, rng):
         got = got[2][2] if len(got[2]) == 3 else got[2][0]
     if got != want_of(data):
         ctx.violation("value-differs-from-data", {"got": repr(got)[:300], "expected": repr(want_of(data))[:300]}, case)
+
+
+def shared_any_case(ctx, rng):
+    """ONE 'any token except the brackets' object (a module-level constant of the caller) serves two parsers whose
+    tokenizers know different tokens: each sequence collects the tokens of its own tokenizer"""
+    helper = AnyTokenExcept('[', ']')
+    toks = [r"(?P<SPACE>\s+)|(?P<BO>\[)|(?P<BC>\])|(?P<WORD>[a-z]+)|(?P<NUMBER>[0-9]+)",
+            r"(?P<SPACE>\s+)|(?P<BO>\[)|(?P<BC>\])|(?P<WORD>[a-z]+)|(?P<EQ>=)|(?P<SC>;)"]
+    pools = [["a", "bc", "7", "42"], ["a", "bc", "=", ";"]]
+    if rng.random() < 0.5:
+        toks.reverse()
+        pools.reverse()
+    ctx.evaluated()
+    case = {"options": {"shared_any_token_except": True}, "text": None}
+    parsers = []
+    try:
+        for tok in toks:
+            parsers.append(llparser.LLParser(tok, synonyms={'BO': '[', 'BC': ']'},
+                                             productions={'E': [('[', 'SEQ', ']')], 'SEQ': ProdSequence(helper)}))
+    except Exception as err:
+        ctx.violation("constructor-raises", {"type": type(err).__name__, "msg": str(err)[-200:]}, case)
+        return
+    for k in (1, 0, 1):
+        items = [rng.choice(pools[k]) for _ in range(rng.choice([0, 1, 3, 5]))]
+        text = "[" + " ".join(items) + "]"
+        case = {"options": {"shared_any_token_except": True}, "text": text}
+        try:
+            got = norm(parsers[k].parse(text))
+        except Exception as err:
+            ctx.violation("valid-text-rejected", {"type": type(err).__name__, "msg": str(err)[:200]}, case)
+            return
+        ctx.count("sequences_of_parsers_sharing_one_any_token_object")
+        want = ('TE', 'E', ['[', items, ']'])
+        if got != want:
+            ctx.violation("value-differs-from-data", {"got": repr(got)[:300], "expected": repr(want)[:300]}, case)
 
 
 def template_start_case(ctx, rng):
@@ -673,6 +713,8 @@ def run_shard(ctx):
                 blank_delimited_case(ctx, rng)
             for _ in range(6):
                 keyword_case(ctx, rng)
+            for _ in range(2):
+                shared_any_case(ctx, rng)
         o = gen_options(rng)
         try:
             mk_parser(o)
